@@ -63,18 +63,19 @@ class MirrorListener(CallbackListener):
             if o is not None:
                 self.objs[id(o)] = o
 
-    def _note(self, ev, key, already):
+    def _note(self, ev, key, already, args=()):
         """record an announcement; a repeat of the same announcement within one call is not
-        counted as late (the first one is the announcement of the change)"""
+        counted as late (the first one is the announcement of the change).  args: the objects /
+        values the announcement carried (turned into ids by harness.ann_records)"""
         rep = (ev, key) in self.seen
         self.seen.add((ev, key))
-        self.ann.append({"ev": ev, "late": bool(already and not rep), "rep": rep})
+        self.ann.append({"ev": ev, "late": bool(already and not rep), "rep": rep, "args": args})
 
     # -- creation ----------------------------------------------------------------------------
     def _create(self, ev, e):
         self._keep(e)
         self.data.setdefault(id(e), {})
-        self._note(ev, id(e), False)
+        self._note(ev, id(e), False, (e,))
 
     def create_netlist(self, netlist):
         self._create("create_netlist", netlist)
@@ -109,7 +110,7 @@ class MirrorListener(CallbackListener):
         else:
             already = (not listed) or (not back)
             self.rel[rn].discard((id(parent), id(child)))
-        self._note(ev, (id(parent), id(child)), already)
+        self._note(ev, (id(parent), id(child)), already, (parent, child))
 
     def netlist_add_library(self, netlist, library):
         self._rel("netlist_add_library", netlist, library)
@@ -159,27 +160,27 @@ class MirrorListener(CallbackListener):
         self._keep(wire, real)
         already = real.wire is wire or any(x is real for x in wire.pins)
         self.conn.add((id(wire), id(real)))
-        self._note("wire_connect_pin", (id(wire), id(real)), already)
+        self._note("wire_connect_pin", (id(wire), id(real)), already, (wire, real, getattr(real, "instance", None), getattr(real, "inner_pin", None)))
 
     def wire_disconnect_pin(self, wire, pin):
         real = _resolve(pin)
         self._keep(wire, real)
         already = (real.wire is not wire) or not any(x is real for x in wire.pins)
         self.conn.discard((id(wire), id(real)))
-        self._note("wire_disconnect_pin", (id(wire), id(real)), already)
+        self._note("wire_disconnect_pin", (id(wire), id(real)), already, (wire, real, getattr(real, "instance", None), getattr(real, "inner_pin", None)))
 
     # -- references and top ------------------------------------------------------------------
     def instance_reference(self, instance, reference):
         self._keep(instance, reference)
         already = instance.reference is reference and self.ref.get(id(instance), None) is not reference
         self.ref[id(instance)] = reference
-        self._note("instance_reference", (id(instance), id(reference)), already)
+        self._note("instance_reference", (id(instance), id(reference)), already, (instance, reference))
 
     def netlist_top_instance(self, netlist, instance):
         self._keep(netlist, instance)
         already = netlist.top_instance is instance and self.top.get(id(netlist), None) is not instance
         self.top[id(netlist)] = instance
-        self._note("netlist_top_instance", (id(netlist), id(instance)), already)
+        self._note("netlist_top_instance", (id(netlist), id(instance)), already, (netlist, instance))
 
     # -- data --------------------------------------------------------------------------------
     def dictionary_set(self, element, key, value):
@@ -187,21 +188,21 @@ class MirrorListener(CallbackListener):
         d = self.data.setdefault(id(element), {})
         already = (key in element and element[key] == value) and not (key in d and d[key] == value)
         d[key] = value
-        self._note("dictionary_set", (id(element), key, repr(value)), already)
+        self._note("dictionary_set", (id(element), key, repr(value)), already, (element, key, value))
 
     def dictionary_delete(self, element, key):
         self._keep(element)
         d = self.data.setdefault(id(element), {})
         already = (key not in element) and (key in d)
         d.pop(key, None)
-        self._note("dictionary_delete", (id(element), key), already)
+        self._note("dictionary_delete", (id(element), key), already, (element, key))
 
     def dictionary_pop(self, element, key):
         self._keep(element)
         d = self.data.setdefault(id(element), {})
         already = (key not in element) and (key in d)
         d.pop(key, None)
-        self._note("dictionary_pop", (id(element), key), already)
+        self._note("dictionary_pop", (id(element), key), already, (element, key))
 
 
 class PassiveListener(CallbackListener):
